@@ -923,8 +923,26 @@ func (in *interp) rangeIter(x value, t types.Type) iter {
 	switch x := x.(type) {
 	case *omap:
 		it := &mapIter{m: x}
-		if in.permuteMaps && x != nil && x.live > 1 {
-			it.order = in.choosePermutation(x)
+		if x != nil && x.live > 1 {
+			switch {
+			case in.permuteMaps:
+				it.order = in.choosePermutation(x)
+			case in.permuteMode == 1 || in.permuteMode == 2:
+				var live []int
+				for i, e := range x.ents {
+					if !e.deleted {
+						live = append(live, i)
+					}
+				}
+				if in.permuteMode == 1 {
+					for a, b := 0, len(live)-1; a < b; a, b = a+1, b-1 {
+						live[a], live[b] = live[b], live[a]
+					}
+				} else {
+					live = append(live[1:], live[0])
+				}
+				it.order = live
+			}
 		}
 		return it
 	case string:
